@@ -203,9 +203,10 @@ def evaluate_pairs(res, shs, reqs, rows, model_out, want):
             res.corr['impl_failures'].append({'request': req[:3000], 'impl': resp[:300], 'what': 'diff computation panicked or value rejected: ' + r[0],
                                               'shape': json.dumps(shapes.lean_ty(sh))[:600]})
             continue
+        opaque = sx.field(r, 'diff')[0] == 'opaque'
         try:
-            cd = shapes.canon_entries_impl(sh, sx.field(r, 'diff')[0])
-            cdr = shapes.canon_entries_impl(sh, sx.field(r, 'diffref')[0])
+            cd = () if opaque else shapes.canon_entries_impl(sh, sx.field(r, 'diff')[0])
+            cdr = () if opaque else shapes.canon_entries_impl(sh, sx.field(r, 'diffref')[0])
         except Exception as ex:
             res.corr['model_disagreements'].append({'request': req[:1500], 'impl': resp[:400], 'what': f'cannot read the Debug rendering of the real diff: {ex!r}'})
             continue
@@ -219,9 +220,9 @@ def evaluate_pairs(res, shs, reqs, rows, model_out, want):
         dis = None
         if m[0] != 'ok':
             dis = 'model rejected the request'
-        elif cd != md:
+        elif not opaque and cd != md:
             dis = 'diff entries differ'
-        elif cdr != mdr:
+        elif not opaque and cdr != mdr:
             dis = 'diff_ref entries differ'
         else:
             for key in RES_KEYS:
@@ -239,7 +240,7 @@ def evaluate_pairs(res, shs, reqs, rows, model_out, want):
         if 'C01' in want:
             mm = match_value(sh, a, b, ap)
             if mm: fails.append(('C01', 'a.apply(a.diff(&b)): ' + mm))
-        if 'C04' in want:
+        if 'C04' in want and not opaque:
             exp = expected_fields(sh, a, b)
             got = [e[0] for e in cd]
             if got != exp:
@@ -248,7 +249,9 @@ def evaluate_pairs(res, shs, reqs, rows, model_out, want):
             if gotr != got:
                 fails.append(('C04', f'diff_ref reports fields {gotr}, diff reports {got}'))
         if 'C05' in want:
-            if [(e[0], e[1]) for e in cdr] != [(e[0], e[1]) for e in cd]:
+            if opaque:
+                pass
+            elif [(e[0], e[1]) for e in cdr] != [(e[0], e[1]) for e in cd]:
                 fails.append(('C05', 'diff_ref converted to owned has different entries (fields/kinds) than diff'))
             elif cdr != cd:
                 fails.append(('C05', 'diff_ref converted to owned carries different payloads than diff'))
@@ -264,6 +267,26 @@ def evaluate_pairs(res, shs, reqs, rows, model_out, want):
                 fails.append(('C06', 'apply / apply_ref / apply_mut / repeated apply_single disagree: ' + ' | '.join(v[:120] for v in vals)))
             if sx.field(r, 'pure') != ['true']:
                 fails.append(('C06', 'an argument was modified by diff / diff_ref / apply_ref'))
+        if 'C13' in want and sh['t'] == 'struct':
+            got = [e[0] for e in cd]
+            for j, fld in enumerate(sh['fields']):
+                if fld['k'] != 'recmap' or fld['skip']:
+                    continue
+                hbump(res, 'recmap-mode:' + fld['mode'])
+                same = field_same(fld, a[j + 1], b[j + 1])
+                if same == (j in got):
+                    fails.append(('C13', f'recursive map field f{j} ({fld["mode"]}): diff ' + ('present although the maps are equal in the sense of the mode' if same else 'absent although the maps differ')))
+                if ap != 'panic':
+                    mm = match_field(fld, a[j + 1], b[j + 1], ap[j + 1], False)
+                    if mm: fails.append(('C13', f'recursive map field f{j} ({fld["mode"]}): ' + mm))
+                else:
+                    fails.append(('C13', 'apply panicked'))
+                ent = [e for e in cd if e[0] == j]
+                if ent:
+                    hbump(res, 'recmap-repr:' + ent[0][2][0])
+                    if ent[0][2][0] == 'Modify':
+                        for c in ent[0][2][1]:
+                            hbump(res, 'recmap-change:' + c[0] + ('-empty' if (c[0] == 'Change' and len(c[2]) == 0) else ''))
         if 'C02' in want:
             fo = sx.field(r, 'follow')[0]
             if equiv_value(sh, a, f) is None:
